@@ -57,6 +57,14 @@ Check (C12_trivia_elisp_nonvacuous :
   forall k, from_trait elisp_ro (fun _ => true) true dec_to_f64 k (bytes_events (eltxt (fun _ => []) c12_elayout)) =
             POk (elval c12_elayout)).
 
+Check (C12_trivia_bytes_nonvacuous :
+  lok (fun _ => []) (fun _ => true) c12_bytes_layout /\ (ldepth c12_bytes_layout <= 127)%nat /\
+  lval c12_bytes_layout = build [Symbol (s2b "x"); Bytes [1; 20; 255]; Symbol (s2b "y")] Null /\
+  ltxt (fun _ => []) c12_bytes_layout =
+    s2b "(x #u8 ;c" ++ [10] ++ s2b "(" ++ [9] ++ s2b "1" ++ [13; 10] ++ s2b "20 ;d" ++ [10] ++ s2b " 255" ++ [12] ++ s2b ") y)" /\
+  forall k, from_trait default_ro (fun _ => true) true dec_to_f64 k
+              (bytes_events (ltxt (fun _ => []) c12_bytes_layout)) = POk (lval c12_bytes_layout)).
+
 Check (C12_layout_of_printed :
   forall ryu v, ltxt ryu (LAtom v) = TextProofs.txt ryu v /\ lval (LAtom v) = v).
 
